@@ -14,6 +14,7 @@ from fam_gen import GenFamily
 from fam_sub import SubFamily
 from fam_retention import RetentionFamily
 from fam_restart import RestartFamily
+from fam_load import LoadFamily
 
 FLOW = FlowFamily()
 ACTIONS = ActionsFamily()
@@ -30,6 +31,7 @@ GEN = GenFamily()
 SUB = SubFamily()
 RETENTION = RetentionFamily()
 RESTART = RestartFamily()
+LOAD = LoadFamily()
 
 QUIESCENT = ['cur-fifo', 'cur-chaos', 'cur-chaos-lifo', 'mt2-chaos', 'mt4-chaos', 'mt8']
 ALLSCHED = QUIESCENT + ['cur-inline', 'mt2-inline']
@@ -40,6 +42,14 @@ def part(name, family, quick, thorough, monitors=(), judge=False, props=None, **
 
 
 PROPS = {
+    'C13': {
+        'level': 'exploration',
+        'rule': 'distinct (models, process mix with inputs, cache capacity, worker threads, client mode) configurations; every process is compared with the solo run of its (model, inputs)',
+        'parts': [
+            part('load', LOAD, 260, 5000, judge=True, props=['C13'], chunk=12, ns=[2, 4, 8]),
+            part('big', LOAD, 16, 600, judge=True, props=['C13'], chunk=2, ns=[16, 32, 64], kind='static'),
+        ],
+    },
     'C12': {
         'level': 'fault_enumeration',
         'rule': 'distinct base scenarios (flow / generator / hooks / data-flow / error-catch programs with a deterministic client); for each, EVERY quiescent point of the uninterrupted run is used as eviction (memory store) or engine-restart (SQLite) point',
